@@ -171,14 +171,21 @@ func streamC03(env *runEnv) {
 					addRaw := func(port, nameLen int, name []byte) { reqs = append(reqs, channelCreateBodyRaw(port, nameLen, name)) }
 					add("127.0.0.1", p0.port)
 					add("127.0.0.1", p1.port)
-					add("127.0.0.1", p0.port+1)   // other port
-					add("127.0.0.1", 0)           // removed port
-					add("127.0.0", p0.port)       // prefix
-					add("27.0.0.1", p0.port)      // suffix
-					add("127.0.0.11", p0.port)    // superstring
-					add("127.0.0.2", p0.port)     // another user's substituted entry
-					add("::1", p2.port)           // IPv6, bracketed by JoinHostPort
-					add("[::1]", p2.port)         // already bracketed
+					add("127.0.0.1", p0.port+1) // other port
+					add("127.0.0.1", 0)         // removed port
+					add("127.0.0", p0.port)     // prefix
+					add("27.0.0.1", p0.port)    // suffix
+					add("127.0.0.11", p0.port)  // superstring
+					add("127.0.0.2", p0.port)   // another user's substituted entry
+					add("::1", p2.port)         // IPv6, bracketed by JoinHostPort
+					add("[::1]", p2.port)       // already bracketed
+					add("[127.0.0.1]", p0.port) // an allowed address in URL-style brackets is another string
+					add("127.0.0.1.", p0.port)  // trailing dot
+					add(" 127.0.0.1", p0.port)  // leading blank
+					add("127.0.0.1 ", p0.port)  // trailing blank
+					add("127.000.000.001", p0.port)
+					add("0x7f.0.0.1", p0.port)
+					add("2130706433", p0.port)    // the same address as one number
 					add("127.0.0.1\x00", p0.port) // doubled NUL
 					add("127.0\x00.0.1", p0.port) // embedded NUL
 					add(user, p0.port)            // bare user name
